@@ -91,10 +91,14 @@ func CheckC11(run *evid.Run) {
 	total := pick(run.Tier, 800, 10000)
 	run.Rule = "seeded stored logs (C01 generator with reference links) x fault plans: every block independently {ok, absent (not-found), removed from the store, I/O error, undecodable bytes, valid IPLD block that is not an entry, hang until the fetch timeout} with seeded weights, plus directed plans (all heads bad, one head bad, a cut vertex bad, every block bad, only references survive), a seeded excluded set (ShouldExclude), concurrency in {1,2,8,32}, gated release policies (slow blocks completing in adversarial orders) and timeouts {none, 150ms with hanging blocks, generous}; each run in a child process with a journal. Offline checker over the store's event log + result: the call returns (hung = store quiescent, every timeout fired, call not returned), no entry twice, no Get for an excluded hash, no second Get for a hash, result subset of the model's reachability closure through retrievable non-excluded entries, every entry block served OK is in the result, and equality with the closure when no deadline interfered. Non-trivial = plan with >=1 faulty reachable block or exclusion that cuts the DAG; distinct = (shape digest, plan name, fault kinds present, concurrency, policy)"
 	run.Assumptions = []string{"termination is decided as quiescent progress: no request outstanding or releasable, all configured timeouts fired, call not returned (goroutine dump as witness); a wall-clock watchdog firing in any other state is inconclusive", "exclusion is driven through ShouldExclude, the mechanism the fetcher consults; the FetchOptions.Exclude entry list is exercised and only counted (the fetcher does not consult it, the head-entries loader re-inserts it)"}
-	runCases(run, "C11", total, true, run.Tier == "thorough", ChildOpts{
-		OnDeath: func(last map[string]any, tail, kind string) (string, map[string]any) {
-			return "C11/process-died", det("kind", kind, "plan", last["plan"])
-		}})
+	onDeath := func(last map[string]any, tail, kind string) (string, map[string]any) {
+		return "C11/process-died", det("kind", kind, "plan", last["plan"])
+	}
+	runCases(run, "C11", total, true, run.Tier == "thorough", ChildOpts{OnDeath: onDeath})
+	if run.Tier != "thorough" {
+		// the fetcher is the most concurrent code of the library: a slice of the same cases again under the race detector
+		runCases(run, "C11", total/5, true, true, ChildOpts{OnDeath: onDeath})
+	}
 }
 
 func init() { registerCases("C11", c11Case) }
